@@ -160,6 +160,8 @@ def build_history(ne, np_, nc, tuples, mode="replace", pick=None):
     quantum registers (mode 'insert'; only operations without classical register, whose wire `insert_at` does not thread)."""
     from graphiq.circuit.circuit_dag import CircuitDAG
 
+    if mode == "insert-mid":
+        return _build_insert_mid(ne, np_, nc, tuples, pick)
     c = CircuitDAG(n_emitter=ne, n_photon=np_, n_classical=nc)
     for k, t in enumerate(tuples):
         sel = pick(k, t) if pick else True
@@ -178,6 +180,41 @@ def build_history(ne, np_, nc, tuples, mode="replace", pick=None):
             c.insert_at(op, edges)
         else:
             c.add(mk_op(t))
+    return c
+
+
+def _quantum_regs(t):
+    return [x for x in t[1:] if isinstance(x, tuple) and len(x) == 2 and x[0] in ("e", "p")]
+
+
+def _build_insert_mid(ne, np_, nc, tuples, pick=None):
+    """the same final circuit, but the operations selected by `pick` (default: every third one without classical register) are left out at
+    first and put in afterwards by `insert_at` on the edge of each of their quantum wires where they belong — *in the middle* of the wire, so
+    the node creation order is no longer a topological order.  Operations with a classical register are always added in place (`insert_at`
+    does not thread the classical wire)."""
+    from graphiq.circuit.circuit_dag import CircuitDAG
+
+    late = [k for k, t in enumerate(tuples) if t[0] in ("one", "wrap", "ctrl") and (pick(k, t) if pick else k % 3 == 1)]
+    c = CircuitDAG(n_emitter=ne, n_photon=np_, n_classical=nc)
+    for k, t in enumerate(tuples):
+        if k not in late:
+            c.add(mk_op(t))
+    present = [k for k in range(len(tuples)) if k not in late]
+    for k in late:
+        t = tuples[k]
+        op = mk_op(t)
+        edges = []
+        for (rt, r) in _quantum_regs(t):
+            # operations already in the circuit that precede position k on this wire
+            before = sum(1 for j in present if j < k and (rt, r) in _quantum_regs(tuples[j]))
+            node = f"{rt}{r}_in"
+            edge = None
+            for _ in range(before + 1):
+                (edge,) = [(u, v, key) for u, v, key in c.dag.out_edges(node, keys=True) if key == f"{rt}{r}"]
+                node = edge[1]
+            edges.append(edge)
+        c.insert_at(op, edges)
+        present.append(k)
     return c
 
 
